@@ -215,7 +215,7 @@ func (a *ActionSetqueue) MarshalBinary() (data []byte, err error) {
 }
 
 func (a *ActionSetqueue) UnmarshalBinary(data []byte) error {
-	if len(data) != int(a.Len()) {
+	if len(data) < int(a.Len()) {
 		return errors.New("The []byte the wrong size to unmarshal an " +
 			"ActionEnqueue message.")
 	}
